@@ -127,6 +127,7 @@ func (c *NamedCollectionNames) FindRegex(key *regexp.Regexp) []types.MatchData {
 			i++
 		}
 	}
+	verifOrder(res)
 	return res
 }
 
@@ -178,6 +179,7 @@ func (c *NamedCollectionNames) FindAll() []types.MatchData {
 			i++
 		}
 	}
+	verifOrder(res)
 	return res
 }
 
